@@ -472,7 +472,15 @@ where
     usize: AsPrimitive<F>,
 {
     let range = probabilities.shape()[1];
-    let probabilities = probabilities.as_slice()?.chunks_exact(range);
+    // `PyReadonlyArray2::as_slice` also succeeds for arrays in Fortran (column-major) order, for
+    // which it returns the entries in *memory* order, so its chunks would not be the rows. Go
+    // through a standard (row-major) layout instead, which copies only if necessary.
+    let probabilities = probabilities.as_array();
+    let probabilities = probabilities.as_standard_layout();
+    let probabilities = probabilities
+        .as_slice()
+        .expect("standard layout")
+        .chunks_exact(range);
     if reverse {
         parameterize_categorical_with_float_type(probabilities.rev(), perfect, callback)
     } else {
